@@ -158,7 +158,7 @@ func checkC07(c *Ctx) {
 		}
 	}
 	for _, f := range m.Funcs {
-		if f == m.Ctor || containsFn(m.StopCores, f) {
+		if m.isCtorCode(f) || containsFn(m.StopCores, f) {
 			continue
 		}
 		eachInstr(f, func(in ssa.Instruction) {
